@@ -13,6 +13,11 @@ IMPORT_CASES = [
     ("import-sees-main-global", {"main.tsh": 'import m "lib.tsh"\nx := 1\nprint(m.Pub())\n', "lib.tsh": 'func Pub() int {\n\treturn x\n}\n'}, False),
     ("import-same-names", {"main.tsh": 'import m "lib.tsh"\nfunc Pub() int {\n\treturn 5\n}\nx := 2\nprint(m.Pub(), Pub(), x)\n', "lib.tsh": 'func Pub() int {\n\tx := 1\n\treturn x\n}\n'}, True),
     ("import-duplicate-alias", {"main.tsh": 'import (\n\tm "lib.tsh"\n\tm "lib2.tsh"\n)\nprint(m.Pub())\n', "lib.tsh": 'func Pub() int {\n\treturn 1\n}\n', "lib2.tsh": 'func Pub2() int {\n\treturn 1\n}\n'}, False),
+    ("import-underscore-func", {"main.tsh": 'import m "lib.tsh"\nprint(m._secret())\n', "lib.tsh": 'func Pub() int {\n\treturn 1\n}\nfunc _secret() int {\n\treturn 2\n}\n'}, False),
+    ("import-underscore-func-used-inside", {"main.tsh": 'import m "lib.tsh"\nprint(m.Pub())\n', "lib.tsh": 'func _secret() int {\n\treturn 2\n}\nfunc Pub() int {\n\treturn _secret()\n}\n'}, True),
+    ("import-digit-second-char", {"main.tsh": 'import m "lib.tsh"\nprint(m.p1())\n', "lib.tsh": 'func p1() int {\n\treturn 2\n}\n'}, False),
+    ("import-upper-later", {"main.tsh": 'import m "lib.tsh"\nprint(m.pUB())\n', "lib.tsh": 'func pUB() int {\n\treturn 2\n}\n'}, False),
+    ("import-underscore-upper", {"main.tsh": 'import m "lib.tsh"\nprint(m._Pub())\n', "lib.tsh": 'func _Pub() int {\n\treturn 2\n}\n'}, False),
     ("import-local-without-alias", {"main.tsh": 'import "lib.tsh"\nprint(1)\n', "lib.tsh": 'func Pub() int {\n\treturn 1\n}\n'}, False),
 ]
 
